@@ -17,6 +17,10 @@ func (fr *Frame) call(x *ssa.Call) {
 	c := &x.Call
 	if b, ok := c.Value.(*ssa.Builtin); ok {
 		fr.builtin(x, b)
+		fr.assertsAfterNamed(x, b.Name(), func(cl *ssa.Call) bool {
+			bb, ok := cl.Call.Value.(*ssa.Builtin)
+			return ok && bb.Name() == b.Name()
+		})
 		return
 	}
 	var args []*Val
@@ -48,6 +52,10 @@ func (fr *Frame) call(x *ssa.Call) {
 
 // assertsAfter: proof-decomposition assertions anchored after this call.
 func (fr *Frame) assertsAfter(x *ssa.Call, callee *ssa.Function) {
+	fr.assertsAfterNamed(x, callee.Name(), func(cl *ssa.Call) bool { return cl.Call.StaticCallee() == callee })
+}
+
+func (fr *Frame) assertsAfterNamed(x *ssa.Call, calleeName string, same func(*ssa.Call) bool) {
 	c := fr.contract
 	if c == nil || len(c.Asserts) == 0 || fr.reach == False {
 		return
@@ -57,7 +65,7 @@ func (fr *Frame) assertsAfter(x *ssa.Call, callee *ssa.Function) {
 	found := false
 	for _, b := range fr.fn.Blocks {
 		for _, in := range b.Instrs {
-			if cl, ok := in.(*ssa.Call); ok && cl.Call.StaticCallee() == callee {
+			if cl, ok := in.(*ssa.Call); ok && same(cl) {
 				ord++
 				if cl == x {
 					found = true
@@ -70,7 +78,7 @@ func (fr *Frame) assertsAfter(x *ssa.Call, callee *ssa.Function) {
 		}
 	}
 	for k, a := range c.Asserts {
-		if a.Callee != callee.Name() || a.Ord != ord {
+		if a.Callee != calleeName || a.Ord != ord {
 			continue
 		}
 		env := fr.contractEnv(fr.params, nil, fr.st, fr.entry)
